@@ -1054,7 +1054,16 @@ impl Prop for C18 {
         let mut a = Run::new(self.cfg(seed, case.ldk, net), "a");
         a.run_program(st, ctx, &ids, &case.a, case.tail_restart.0, &nums, &chain)?;
         let pairs_a = a.check_world(st, ctx, chain_max)?;
-        let mut b = Run::new(self.cfg(seed, case.ldk, net), "b");
+        // every second chain length: world b runs under a permissive operator filter (every policy
+        // violation is logged, none refuses), so requests ahead of the channel state are answered
+        // there; what they return must be the same keys
+        let mut cfg_b = self.cfg(seed, case.ldk, net);
+        if case.chain % 2 == 1 {
+            use lightning_signer::policy::filter::{FilterResult, FilterRule, PolicyFilter};
+            cfg_b.policy.filter.merge(PolicyFilter { rules: vec![FilterRule { tag: "policy-".to_string(), is_prefix: true, action: FilterResult::Warn }] });
+            st.class("world_b_permissive_filter");
+        }
+        let mut b = Run::new(cfg_b, "b");
         b.run_program(st, ctx, &ids, &case.b, case.tail_restart.1, &nums, &chain)?;
         let pairs_b = b.check_world(st, ctx, chain_max)?;
 
